@@ -416,6 +416,13 @@ def _oracle_solve_t(case, obs, bad, t=None, before=None):
     p = _pos(case, t)
     tol = _f(o['tol'])
     ids = _ids(case)
+    if len(set(ids)) < len(ids):
+        # a submodel listed more than once lies outside "all subsets for submodels=": judged by multiplicity (it is evaluated and
+        # counted once per listing), under signatures of its own so that a failure on a duplicate-free selection gets its own replay
+        bad0 = bad
+
+        def bad(sig, what):
+            bad0(sig if sig.startswith('offset|') else sig + '|duplicate-selection', what)
     known = [s['id'] for s in case['subs']]
     b_core = before['core'] if before else case['core']
     b_subs = before['subs'] if before else case['subs']
